@@ -251,6 +251,10 @@ def run_check(prop, tier="quick", seed=0, replay=None):
       v["shard_params"] = full.get(r["idx"])
       viols.append(v)
 
+  pm = getattr(mod, "post_merge", None)
+  if pm is not None:
+    pm(counters)
+
   # --- classify violations against known findings (by mechanism) -------
   known = load_known(prop)
   known_open = {e["mechanism"]: e for e in known if e.get("status") == "known"}
